@@ -242,7 +242,7 @@ func vaFinalResponse(w []byte, head bool) (r vaResp, interim int, ok bool) {
 
 var vaCodes = [...]int{103, 201, 204, 304, 404}
 
-const vaNumOps = 9
+const vaNumOps = 11
 
 // vaProgram is a handler made of a list of operations on the ResponseWriter.
 type vaProgram struct {
@@ -275,12 +275,17 @@ func (p *vaProgram) ServeHTTP(w http.ResponseWriter, r *http.Request) {
 			w.Header().Del("X-A")
 		case 8:
 			w.Write(nil) // writes the header like any other Write
+		case 9: // the request body, as the handler reads it
+			b, _ := io.ReadAll(r.Body)
+			w.Write(append([]byte("body="), b...))
+		case 10: // what the handler sees of the request
+			w.Write([]byte(r.Method + " " + r.URL.Path + " " + r.Host + " " + r.Proto + " " + r.Header.Get("X-Q") + ";"))
 		}
 	}
 }
 
 var vaRequests = [...]string{
-	"GET /p HTTP/1.1\r\nHost: a\r\nConnection: close\r\n\r\n",
+	"GET /p HTTP/1.1\r\nHost: a\r\nX-Q: 1\r\nx-q: 2\r\nConnection: close\r\n\r\n",
 	"HEAD /p HTTP/1.1\r\nHost: a\r\nConnection: close\r\n\r\n",
 	"POST /p HTTP/1.1\r\nHost: a\r\nContent-Length: 2\r\nConnection: close\r\n\r\nhi",
 	"GET /p HTTP/1.0\r\nHost: a\r\n\r\n",
